@@ -18,5 +18,5 @@ pub fn run(ctx: &Ctx, replay: Option<&str>) -> i32 {
          exactly once and in order. Non-trivial = >=2 workers and >=100 iterations.",
     );
     ctx.assume("the OS scheduler chooses the interleavings; a deadlock is recognised by a generous time limit with one retry, which is the one place besides C17 where a timeout is a violation");
-    threads::run(ctx, replay, "c16", false, 250, 6000)
+    threads::run(ctx, replay, "c16", false, 160, 6000)
 }
